@@ -46,7 +46,7 @@ use ed25519_dalek::SecretKey as DalekSecretKey;
 use ed25519_dalek::Verifier;
 use x25519_dalek::{PublicKey as xPublicKey, StaticSecret};
 
-use std::convert::{TryFrom, TryInto};
+use std::convert::TryFrom;
 use std::sync::mpsc::Sender;
 use std::sync::Arc;
 
@@ -528,7 +528,7 @@ where
 			&parent_key_id,
 		)?;
 		slate.amount = total;
-		slate.fee_fields = fee.try_into().unwrap();
+		slate.fee_fields = FeeFields::new(0, fee)?;
 		return Ok(slate);
 	}
 
